@@ -657,3 +657,11 @@ SELFTEST = [
                 "        value.serialize(&mut StringSerializer).map(|text| {\n            self.output.insert(String::from(key), text);\n        })")],
      "why": "behaviour-preserving: `let v = x?; insert(k, v); Ok(())` written as x.map(|v| { insert(k, v); }) — one program on the normalised view"},
 ]
+
+
+SELFTEST += [
+    {"name": "to_map-insert-result-bound", "kind": "benign", "why": "behaviour-preserving: the previous value returned by insert is bound to an unused local",
+     "edits": [("dropshot/src/to_map.rs", "        self.output.insert(key.to_string(), value);\n        Ok(())", "        let _previous = self.output.insert(key.to_string(), value);\n        Ok(())")]},
+    {"name": "to_map-empty-values-dropped", "kind": "mutant", "expect": ["C12.R7"], "why": "a declared header whose value is the empty string is silently left out",
+     "edits": [("dropshot/src/to_map.rs", "        self.output.insert(key.to_string(), value);\n        Ok(())", "        if !value.is_empty() {\n            self.output.insert(key.to_string(), value);\n        }\n        Ok(())")]},
+]
